@@ -492,7 +492,7 @@ deriving Repr, DecidableEq
         lines.append('  { fn := %s, pub := %s, writes := [%s], captures := [%s], globalRng := %s, seeded := %s, cacheWrites := [%s], globalWrites := [%s]%s }' % (
             _s(q), 'true' if r['public'] else 'false',
             ', '.join(f'({_s(k)}, {_s(v)})' for k, v in sorted(pw.items())),
-            ', '.join(f'({_s(a)}, {_s(p)})' for a, p in sorted(r['captures'])),
+            ', '.join(f'({_s(a.lstrip("_"))}, {_s(p)})' for a, p in sorted(r['captures'])),
             'true' if r['rng'] else 'false', 'true' if r['seeded'] else 'false',
             ', '.join(_s(x) for x in cw), ', '.join(_s(x) for x in gw),
             ((', rngArgs := [%s]' % ', '.join(_s(x) for x in r['rng_args'])) if r['rng_args'] else '') +
